@@ -157,12 +157,18 @@ Crossbeam<'a, ItemType, BUFFER_SIZE, MAX_STREAMS> {
     #[inline(always)]
     fn send_derived(&self, arc_item: &Arc<ItemType>) -> bool {
         for stream_id in self.streams_manager.used_streams() {
+            #[cfg(feature = "verif")]
+            crate::verif::yield_point("multi.used.read");
             if *stream_id == u32::MAX {
                 break
             }
             let sender = unsafe { self.senders.get_unchecked(*stream_id as usize) };
+            #[cfg(feature = "verif")]
+            crate::verif::yield_point("xb.len");
             match sender.len() {
                 len_before if len_before <= 2 => {
+                    #[cfg(feature = "verif")]
+                    crate::verif::yield_point("xb.try_send");
                     let _ = sender.try_send(arc_item.clone());
                     self.streams_manager.wake_stream(*stream_id);
                 },
@@ -204,6 +210,8 @@ Crossbeam<'a, ItemType, BUFFER_SIZE, MAX_STREAMS> {
     #[inline(always)]
     fn consume(&self, stream_id: u32) -> Option<Arc<ItemType>> {
         let receiver = unsafe { self.receivers.get_unchecked(stream_id as usize) };
+        #[cfg(feature = "verif")]
+        crate::verif::yield_point("xb.try_recv");
         match receiver.try_recv() {
             Ok(event) => {
                 Some(event)
